@@ -348,12 +348,29 @@ impl Storm {
                 // time passes
                 let dt = pick(&mut self.r, &[0i64, 1, 1, 7, 60, 3600, 86_400, 30 * 86_400, 365 * 86_400]);
                 w.chain.advance(dt);
+                if self.r.gen_bool(0.2) {
+                    w.chain.advance_epoch();
+                }
                 if self.r.gen_bool(0.9) {
                     w.refresh_oracles();
                 }
                 return;
             }
             83..=88 => {
+                if let TokKind::T22Fee { .. } = w.mints[w.banks[b].mint].kind {
+                    if self.r.gen_bool(0.35) {
+                        // the mint's fee authority schedules a new transfer fee (takes effect two epochs later)
+                        let bps = pick(&mut self.r, &[0u16, 1, 50, 300, 1000, 9000]);
+                        let max = pick(&mut self.r, &[0u64, 1, 5000, u64::MAX]);
+                        let p = w.chain.payer.pubkey();
+                        let mk = w.mints[w.banks[b].mint].key;
+                        let t22 = anchor_spl::token_2022::spl_token_2022::ID;
+                        if let Ok(i) = anchor_spl::token_2022::spl_token_2022::extension::transfer_fee::instruction::set_transfer_fee(&t22, &mk, &p, &[], bps, max) {
+                            let _ = w.raw_send(&[i], &[]).await;
+                        }
+                        return;
+                    }
+                }
                 self.move_price(w, b);
                 return;
             }
